@@ -2,6 +2,7 @@
   C14 — Metadata follows the documented precedence and honours opt-out.
 -/
 import Distill.Proofs.IEReader
+import Distill.Model.OpenGraph
 import Distill.Gen.Funcs
 import Distill.Model.Markup
 import Distill.Gen.Funcs
@@ -153,6 +154,35 @@ theorem page_optout_empties (A : IE.Atoms) (root m : Node) (before after : List 
 theorem page_without_tag_no_optout (A : IE.Atoms) (root : Node)
     (h : ∀ x ∈ IE.withTag root "meta", IE.isOptOutName A x = false) : (IE.source A root).optOut = false := by
   rw [IE.source_optOut]; exact IE.optOut_none A root h
+
+/-! ### the OpenGraph parser, from the document tree (model: Distill.Model.OpenGraph, stage
+`opengraph`) -/
+
+theorem open_graph_tie : Gen.openGraphBodies = Gen.openGraphBodiesExpected := by rfl
+
+/-- **The gate, from the page**: the parsed record is usable exactly when the regenerated switch of
+`NewParser` lets it through — title, type, url non-empty and at least one verified image. -/
+theorem page_og_gate (lower : String → String) (P : OG.Prefixes) (root : Node) :
+    Gen.ogGate { title := (OG.parse lower P root).st.get "title", type := (OG.parse lower P root).st.get "type",
+                 url := (OG.parse lower P root).st.get "url", nImages := (OG.parse lower P root).images.length } =
+      some (OG.usable (OG.parse lower P root)) := by
+  simp only [Gen.ogGate, OG.usable]
+  generalize OG.parse lower P root = p
+  cases hi : p.images with
+  | nil => simp
+  | cons x xs =>
+    have h0 : ((↑xs.length + 1 : Int) == 0) = false := by
+      have : (↑xs.length + 1 : Int) ≠ 0 := by omega
+      simpa using this
+    simp [h0, bne]
+
+/-- a later `meta` with the same property overwrites the earlier value (the property table is a map) -/
+theorem og_last_value_wins (s : OG.St) (k v : String) : (s.set k v).get k = v := by
+  simp [OG.St.get, OG.St.set, List.lookup]
+
+/-- the OpenGraph accessor never opts out and never provides a copyright -/
+theorem og_no_optout (lower : String → String) (p : OG.Parsed) :
+    (OG.source lower p).optOut = false ∧ (OG.source lower p).copyright = "" := ⟨rfl, rfl⟩
 
 /-! ### non-vacuity -/
 def ogS : MSource := { title := "OG title", type := "Article", url := "http://e/", images := [{ url := "i.png" }],
